@@ -46,11 +46,12 @@ func (i *Ignore) load(rootGoitPath string) error {
 	for scanner.Scan() {
 		text := scanner.Text()
 		var replacedText string
+		// the line is a literal path except for '*': quote every other regexp metacharacter
+		quotedText := strings.ReplaceAll(regexp.QuoteMeta(text), `\*`, ".*")
 		if directoryRegexp.MatchString(text) {
-			replacedText = fmt.Sprintf("%s.*", text)
+			replacedText = fmt.Sprintf("%s.*", quotedText)
 		} else {
-			replacedText = strings.ReplaceAll(text, ".", `\.`)
-			replacedText = strings.ReplaceAll(replacedText, "*", ".*")
+			replacedText = quotedText
 		}
 		i.paths = append(i.paths, replacedText)
 	}
@@ -72,7 +73,12 @@ func (i *Ignore) IsIncluded(path string, index *Index) bool {
 		}
 	}
 	for _, exFile := range i.paths {
-		exRegexp := regexp.MustCompile(exFile)
+		// a pattern must match whole path components up to the end of the path:
+		// "build/" must not hide "subbuild/o", "*.ext" must not hide "a.extra", ".goit/" must not hide "x.goit/f"
+		exRegexp, err := regexp.Compile("(?:^|/)(?:" + exFile + ")$")
+		if err != nil {
+			continue
+		}
 		if exRegexp.MatchString(target) {
 			return true
 		}
